@@ -39,6 +39,23 @@ def _jfix(n):
     return n
 
 
+def probe_build(sources):
+    """Config.build of YAML sources with the library under test -> plain data, or {"error": class name}"""
+    import drive  # (puts AY_REPO on sys.path)
+    from awesomeyaml.config import Config
+
+    def plain(x):
+        if isinstance(x, dict):
+            return {str(k): plain(v) for k, v in x.items()}
+        if isinstance(x, (list, tuple)):
+            return [plain(v) for v in x]
+        return x
+    try:
+        return plain(Config.build(*sources))
+    except Exception as e:
+        return {"error": type(e).__name__}
+
+
 def run(spec, prop, tier, seed, replay, keep):
     """spec: the property's entry of registry.BUILDER"""
     import main as M
@@ -59,6 +76,11 @@ def _run(spec, prop, tier, seed, replay, wd):
 
     if replay:
         body = json.load(open(replay))
+        if body.get("kind") == "probe":
+            got = probe_build(body["sources"])
+            still = got not in (body["as_is"], body["intended"])
+            print("replay probe:", body["sources"], "->", json.dumps(got), "(still a different failure)" if still else "(listed / intended result)")
+            return {"violations": [replay] if still else [], "level": "model_checking", "coverage": cov, "assumptions": ASSUME}
         traces = E.record([(1, body["docs"], body["safes"], body.get("rels") or "all")], nproc=1, rel=spec.get("rel"), driver=spec.get("driver", "builder"))
         rows, _ = E.validate(prop, traces, wd, workers=1)
         row = rows.get(1)
@@ -136,7 +158,7 @@ def _run(spec, prop, tier, seed, replay, wd):
         tid_info[tid] = (docs, safes, None)
     traces = E.record(hs + mismatch_traces, rel=spec.get("rel"), driver=spec.get("driver", "builder"))
     # ---- B2 -------------------------------------------------------------
-    as_is = [f["deviation"] for f in M.known_findings() if f["kind"] == "known" and prop in f["properties"]]
+    as_is = [f["deviation"] for f in M.known_findings() if f["kind"] == "known" and prop in f["properties"] and "probe" not in f]
     rows, r = E.validate(prop, traces, wd)
     cov["states"] += r["distinct"]
     cov["transitions"] += r["generated"]
@@ -182,13 +204,31 @@ def _run(spec, prop, tier, seed, replay, wd):
         os.makedirs(sub)
         bad_traces = [t for t in traces if t["tid"] in bad]
         for f in M.known_findings():
-            if f["kind"] != "known" or prop not in f["properties"]:
+            if f["kind"] != "known" or prop not in f["properties"] or "probe" in f:
                 continue
             rows2, _ = E.validate(prop, bad_traces, sub, switches=[f["deviation"]], name="asis_" + f["id"])
             explained = [tid for tid in bad if rows2.get(tid, ("x",))[0] == "ok"]
             if explained:
                 known_lines.append(f"KNOWN-FINDING: property={prop} {f['id']} {f['witness']} ({len(explained)} cases)")
                 bad = [tid for tid in bad if tid not in explained]
+    # ---- known findings identified by a specific input (entry with a "probe"): the listed sources are built with the
+    # library; the recorded defective result -> KNOWN-FINDING line, the intended result -> note that it no longer
+    # reproduces, anything else -> a different failure at the same call site = violation
+    for f in M.known_findings():
+        if f["kind"] != "known" or prop not in f["properties"] or "probe" not in f:
+            continue
+        for pr in f["probe"]:
+            got = probe_build(pr["sources"])
+            if got == pr["as_is"]:
+                known_lines.append(f"KNOWN-FINDING: property={prop} {f['id']} {pr['what']}: {pr['sources']} gives {json.dumps(got)} (intended {json.dumps(pr['intended'])})")
+            elif got == pr["intended"]:
+                print(f"note: finding {f['id']} no longer reproduces on {pr['sources']} (repaired?)")
+            else:
+                path = os.path.join(M.VERIF, "replays", prop, "probe_" + f["id"] + "_" + E.sha(pr["sources"])[:8] + ".json")
+                os.makedirs(os.path.dirname(path), exist_ok=True)
+                json.dump({"kind": "probe", "finding": f["id"], "sources": pr["sources"], "got": got, "as_is": pr["as_is"], "intended": pr["intended"]}, open(path, "w"), indent=1)
+                violations.append(path)
+    cov["probes"] = sum(len(f.get("probe", [])) for f in M.known_findings() if prop in f["properties"] and f["kind"] == "known")
     seen = set()
     bad.sort(key=lambda t: len(json.dumps(tid_info[t][0])))
     for tid in bad:
